@@ -126,6 +126,18 @@ pcbc_enc!(pcbc_enc_b2_w2_n4_closure, 48, U2, 2, U2, 4, CLOSURE);
 pcbc_dec!(pcbc_dec_b2_w2_n4_closure, 48, U2, 2, U2, 4, CLOSURE);
 ige_enc!(ige_enc_b2_w2_n4_closure, 48, U2, 2, U4, U2, 4, CLOSURE);
 ige_dec!(ige_dec_b2_w3_n5_closure, 48, U2, 2, U4, U3, 5, CLOSURE);
+// wide backends: width 16 with a tail of 11 blocks / one full group + tail of 12 (one-byte blocks)
+cbc_dec!(cbc_dec_b1_w16_n12_multi, 64, U1, 1, U16, 12, MULTI);
+pcbc_dec!(pcbc_dec_b1_w16_n12_multi, 64, U1, 1, U16, 12, MULTI);
+pcbc_dec!(pcbc_dec_b1_w16_n28_b2b, 80, U1, 1, U16, 28, B2B);
+ige_dec!(ige_dec_b1_w16_n12_multi, 64, U1, 1, U2, U16, 12, MULTI);
+cbc_enc!(cbc_enc_b1_w16_n12_multi, 64, U1, 1, U16, 12, MULTI);
+// 32-byte blocks
+cbc_enc!(cbc_enc_b32_w1_n2_multi, 100, U32, 32, U1, 2, MULTI);
+cbc_dec!(cbc_dec_b32_w2_n3_multi, 120, U32, 32, U2, 3, MULTI);
+// single-block entry points of the decryptors
+pcbc_dec!(pcbc_dec_b2_w2_n3_single, 40, U2, 2, U2, 3, SINGLE);
+ige_dec!(ige_dec_b2_w2_n3_single, 40, U2, 2, U4, U2, 3, SINGLE);
 // zero blocks: output empty, chaining value is the IV
 cbc_dec!(cbc_dec_b2_w2_n0, 40, U2, 2, U2, 0, MULTI);
 ige_enc!(ige_enc_b2_w2_n0, 40, U2, 2, U4, U2, 0, MULTI);
